@@ -347,6 +347,14 @@ func vGenPod(rng *rand.Rand, n int) *vPod {
 	case 8:
 		p.ann["prefer-isolated-cpus."+vKey+"/pod"] = "false"
 	}
+	// annotations consumed while the container is inserted into the cache (class assignment,
+	// topology hints): they exercise cache code that runs before the policy sees the container
+	if rng.Intn(5) == 0 {
+		p.ann[[]string{"rdtclass." + vKey + "/pod", "rdtclass." + vKey, "blockioclass." + vKey + "/pod", "blockioclass." + vKey}[rng.Intn(4)]] = []string{"gold", "silver", "slow"}[rng.Intn(3)]
+	}
+	if rng.Intn(12) == 0 {
+		p.ann["topologyhints."+vKey+"/pod"] = []string{"false", "true"}[rng.Intn(2)]
+	}
 	return p
 }
 
